@@ -977,15 +977,12 @@ fn gen_lines(tier: &str, seed: u64, w: &mut Vec<u8>) {
                 writeln!(w, "hash_read {} 1400 - {} {} 1 -", h, lo, lo + 32).unwrap();
             }
             if thorough {
-                // all three-byte datagrams.  A header with the compression flag (and without the
-                // connless flag) makes the reader decompress an empty stream up to the capacity, which
-                // costs milliseconds in the model: for those first bytes the ack byte is restricted to
-                // {0x00, 0xff} (the second byte does not influence the control flow).
+                // all three-byte datagrams (the drivers evaluate the reader with the proven-equal
+                // `decompressFast`, so the headers that make it decompress an empty stream are affordable)
                 for b0 in 0..256u32 {
-                    if b0 & 0x80 != 0 && b0 & 0x20 == 0 {
-                        writeln!(w, "hash_read {} 1400 {:02x}00 0 256 0 -", h, b0).unwrap();
-                        writeln!(w, "hash_read {} 1400 {:02x}ff 0 256 0 -", h, b0).unwrap();
-                    } else {
+                    writeln!(w, "hash_read {} 1400 - {} {} 2 -", h, b0, b0 + 1).unwrap();
+                }
+            } else {
                         writeln!(w, "hash_read {} 1400 - {} {} 2 -", h, b0, b0 + 1).unwrap();
                     }
                 }
